@@ -458,7 +458,7 @@ theorem inv_closeDone (cfg : Cfg) (s s' : St) (h : Inv cfg s) (hs : step cfg s .
     simp only [Option.some.injEq] at hs
     subst hs
     refine { h with waitLive := ?_, flightO := ?_, flightN := ?_ }
-    · intro hh; exact absurd hh hw
+    · intro hh; exact absurd hh hw.1
     · intro g hg
       obtain ⟨X, hX, hDX, _⟩ := h.flightO g hg
       exact ⟨X, hX, hDX, fun hh => by simp at hh⟩
